@@ -539,13 +539,34 @@ func coherentRefinementExt(t *rapid.T, kind int) []byte {
 			hi = rapid.SampledFrom(nums).Draw(t, "nhi")
 		}
 		which := rapid.IntRange(0, 3).Draw(t, "nwhich")
+		// the bound entry is the two-element array [number, inclusive] an encoder
+		// writes - or, now and then, something else in the same place: the flag
+		// or the number null / unknown, the array short, long, null or unknown
+		boundEntry := func(key byte, num []byte, label string) []byte {
+			flag := []byte{0xc2 + byte(rapid.IntRange(0, 1).Draw(t, label+"inc"))}
+			switch rapid.IntRange(0, 11).Draw(t, label+"shape") {
+			case 4:
+				flag = []byte{0xd4, 0x00, 0x00} // unknown inclusive flag
+			case 5:
+				flag = []byte{0xc0} // null inclusive flag
+			case 6:
+				return []byte{key, 0xc0} // null instead of the array
+			case 7:
+				return []byte{key, 0xd4, 0x00, 0x00} // unknown instead of the array
+			case 8:
+				return append([]byte{key, 0x91}, num...) // one-element array
+			case 9:
+				num = []byte{0xd4, 0x00, 0x00} // unknown bound
+			case 10:
+				return append(append(append([]byte{key, 0x93}, num...), flag...), 0xc3) // three elements
+			}
+			return append(append([]byte{key, 0x92}, num...), flag...)
+		}
 		if which != 1 {
-			e := append([]byte{0x03, 0x92}, lo...)
-			entries = append(entries, append(e, 0xc2+byte(rapid.IntRange(0, 1).Draw(t, "loinc"))))
+			entries = append(entries, boundEntry(0x03, lo, "lo"))
 		}
 		if which != 2 {
-			e := append([]byte{0x04, 0x92}, hi...)
-			entries = append(entries, append(e, 0xc2+byte(rapid.IntRange(0, 1).Draw(t, "hiinc"))))
+			entries = append(entries, boundEntry(0x04, hi, "hi"))
 		}
 	default: // string prefix (key 2)
 		s := rapid.SampledFrom([]string{"", "a", "e\u0301", "\u1100", "ab\u0323"}).Draw(t, "pfx")
@@ -619,7 +640,20 @@ func msgpackOp(t *rapid.T, b, other []byte) ([]byte, string) {
 		if len(ss) == 0 {
 			return genericOp(t, b, other)
 		}
-		src := items[rapid.SampledFrom(ss).Draw(t, "str")]
+		// prefer a string that HAS another canonically equivalent spelling
+		var respellable []int
+		for _, i := range ss {
+			it := items[i]
+			str := string(b[it.Off+it.Hdr : it.Off+it.Hdr+it.N])
+			if norm.NFD.String(str) != str || norm.NFC.String(str) != str {
+				respellable = append(respellable, i)
+			}
+		}
+		pickFrom := ss
+		if len(respellable) > 0 {
+			pickFrom = respellable
+		}
+		src := items[rapid.SampledFrom(pickFrom).Draw(t, "str")]
 		inner := string(b[src.Off+src.Hdr : src.Off+src.Hdr+src.N])
 		alt := norm.NFD.String(inner)
 		if alt == inner {
